@@ -409,6 +409,20 @@ def validate_translation(ctx, items, impl_results):
         if g is None:
             continue
         reqs.append(g[0]); exp.append(r if g[1] is None else g[1]); tags.append((entry, sep, zero, kind, s))
+        # the translated bodies of the three public wrappers, on bytes (the decorator is hand-modelled)
+        if entry not in ("date", "time", "tz"):
+            continue
+        b = s.encode("ascii") if isinstance(s, str) else s
+        if entry == "date":
+            reqs.append("isogen.edate %s" % vlib.hexs(b)); exp.append(impl_date(b, "bytes")); tags.append((entry, sep, zero, "bytes", s))
+        elif entry == "time":
+            e = impl_time(b, "bytes")
+            if e.startswith("ok "):
+                p = e.split(" ", 5)
+                e = " ".join(p[:5] + [p[5].replace("naive", "-").replace(" ", ":")])
+            reqs.append("isogen.etime %s" % vlib.hexs(b)); exp.append(e); tags.append((entry, sep, zero, "bytes", s))
+        elif entry == "tz":
+            reqs.append("isogen.etz %d %s" % (int(zero), vlib.hexs(b))); exp.append(impl_tz(b, zero, "bytes")); tags.append((entry, sep, zero, "bytes", s))
     # _parse_digits directly
     seen = set()
     for (entry, sep, zero, kind, s) in items:
